@@ -22,6 +22,33 @@ import (
 	"strings"
 )
 
+// c07CallsOutsideGo: the expression contains a call of a method with this name which is not inside a go statement.
+func c07CallsOutsideGo(e ast.Node, method string) bool {
+	found := false
+	var walk func(n ast.Node) bool
+	walk = func(n ast.Node) bool {
+		switch v := n.(type) {
+		case *ast.GoStmt:
+			return false
+		case *ast.CallExpr:
+			if se, ok := v.Fun.(*ast.SelectorExpr); ok && se.Sel.Name == method {
+				found = true
+			}
+		}
+		return true
+	}
+	ast.Inspect(e, walk)
+	return found
+}
+
+func c07IsCloseTokens(c *ast.CallExpr) bool {
+	if id, ok := c.Fun.(*ast.Ident); !ok || id.Name != "close" || len(c.Args) != 1 {
+		return false
+	}
+	se, ok := c.Args[0].(*ast.SelectorExpr)
+	return ok && se.Sel.Name == "tokens"
+}
+
 func c07GenTool(out string) int {
 	files, err := c08ParsePackage()
 	if err != nil {
@@ -145,9 +172,16 @@ func c07GenTool(out string) int {
 					goStmts++
 					goWhere = full
 				case *ast.DeferStmt:
-					if full == "ParseWithRuntime" {
-						if se, ok := v.Call.Fun.(*ast.SelectorExpr); ok && se.Sel.Name == "drain" {
-							deferDrain = true
+					// `defer x.drain()` or `defer func() { … x.drain() … }()` — the call runs in the deferring goroutine
+					if full == "ParseWithRuntime" && c07CallsOutsideGo(v.Call, "drain") {
+						deferDrain = true
+					}
+					// `defer close(l.tokens)` as a statement of run itself: executed after everything else on every exit
+					if full == "(*lexer).run" && c07IsCloseTokens(v.Call) {
+						for _, st := range fd.Body.List {
+							if st == ast.Stmt(v) {
+								closeLast = true
+							}
 						}
 					}
 				case *ast.AssignStmt:
@@ -187,9 +221,17 @@ func c07GenTool(out string) int {
 				return true
 			})
 			if full == "(*lexer).run" && len(fd.Body.List) > 0 {
+				// `close(l.tokens)` as the last statement of a body without any return statement
 				if es, ok := fd.Body.List[len(fd.Body.List)-1].(*ast.ExprStmt); ok {
-					if c, ok := es.X.(*ast.CallExpr); ok && fn(c.Fun) == "close" && len(c.Args) == 1 {
-						if se, ok := c.Args[0].(*ast.SelectorExpr); ok && se.Sel.Name == "tokens" {
+					if c, ok := es.X.(*ast.CallExpr); ok && c07IsCloseTokens(c) {
+						hasReturn := false
+						ast.Inspect(fd.Body, func(n ast.Node) bool {
+							if _, ok := n.(*ast.ReturnStmt); ok {
+								hasReturn = true
+							}
+							return true
+						})
+						if !hasReturn {
 							closeLast = true
 						}
 					}
@@ -203,15 +245,33 @@ func c07GenTool(out string) int {
 					}
 					return true
 				})
+				// a loop in the calling goroutine which receives from the token channel (`for range b.tokens`, or a
+				// `for` statement containing `<-b.tokens`); that the loop only ends on the closed channel is NOT
+				// established syntactically (the leak measurement is what checks it)
+				loopRecv := false
+				ast.Inspect(fd.Body, func(n ast.Node) bool {
+					switch l := n.(type) {
+					case *ast.RangeStmt:
+						if se, ok := l.X.(*ast.SelectorExpr); ok && se.Sel.Name == "tokens" {
+							loopRecv = true
+						}
+					case *ast.ForStmt:
+						ast.Inspect(l, func(m ast.Node) bool {
+							if u, ok := m.(*ast.UnaryExpr); ok && u.Op == token.ARROW {
+								if se, ok := u.X.(*ast.SelectorExpr); ok && se.Sel.Name == "tokens" {
+									loopRecv = true
+								}
+							}
+							return true
+						})
+					}
+					return true
+				})
 				switch {
 				case hasGo:
 					drainKind = "async"
-				case len(fd.Body.List) == 1:
-					if rs, ok := fd.Body.List[0].(*ast.RangeStmt); ok {
-						if se, ok := rs.X.(*ast.SelectorExpr); ok && se.Sel.Name == "tokens" && len(rs.Body.List) == 0 {
-							drainKind = "sync"
-						}
-					}
+				case loopRecv:
+					drainKind = "sync"
 				}
 			}
 		}
